@@ -35,6 +35,10 @@ Protocol (one case = one schema + one Chaperone):
   newh <ctor> <cofn|-> <mfn|->           Chaperone(strategies=…, co_chaperones={S: fn}, on_misfold=cb)
   [env H <fn> <text> ok <text>|raise <Class>]   what a co-chaperone does on a text (evaluated by the harness)
   [env G <fn> <truthy> ok|raise <Class>]        truthiness of an on_misfold callback and what it does
+  loop                                   ChaperoneLoop(generator, chaperone=<addressed instance>, schema=<current class>) is
+                                         constructed and kept alive (no heal): the library's own wrapper got the instance
+  agent                                  BioAgent(...).chaperone becomes a new addressed instance (a Chaperone the library's own
+                                         code constructed; default configuration)
   fold / foldx print `hooks=[p:ok|p:raise, m:<valid>/<struct>/<err>/<rawEcho>/<confidence>/<attempts>:ok|raise]` (the user
   callbacks invoked, in order, with the report on_misfold was handed) in front of `calls=[…]`; a fold that a callback makes
   raise prints `raise:<Class> hooks=[…] calls=[…]`
@@ -110,6 +114,17 @@ CO_FNS = {
 # on_misfold callbacks: what they do when called (None = return) and whether the object is truthy
 MISFOLD_FNS = {"ok": (None, True), "rv": (ValueError("on_misfold"), True), "r0": (RuntimeError(), True),
                "falsy": (None, False)}
+
+# strings with typographic punctuation / invisible characters / compatibility forms: legal inside JSON strings, and
+# exactly what a "tidying" preprocessor, a normaliser or a too-clever repair would rewrite
+TYPO_STRS = ["Sean O\u2019Brien", "she said \u201chello\u201d and left", "Jean\u00a0Luc", "zero\u200bwidth", "\ufeffbom first",
+             "\u2018quoted\u2019", "10\u00a0000 km", "en\u2013dash \u2014 em", "wait\u2026", "soft\u00adhyphen",
+             "rtl\u200fmark\u200e", "zw\u200djoin\u2060er", "\uff14\uff12", "\uff21\uff22c", "e\u0301te\u0301 nfd", "\ufb01ne ligature",
+             "line\u2028sep\u2029para", "narrow\u202fnbsp\u3000wide", "5\u2032 7\u2033", "\u00abguillemets\u00bb \u201elow\u201c",
+             "it\u00b4s `tick`", "\uff02full\uff02 \uff1a\uff0c\uff5b\uff5d", "\u22125 minus", "\u0663 arabic three", "x\u00b2", "\u2167",
+             "\u212a kelvin", "\u0130stanbul", "stra\u00dfe", "smile \U0001f600", "\u201c", "\u00a0", "\u200b", "\u201cTrue\u201d",
+             "\u2018None\u2019 of it", "a\u00a0,\u00a0b", "\u201ck\u201d: \u2018v\u2019", "tab\u2003em space", "\u00e9t\u00e9 nfc"]
+FULLWIDTH = {ord(c): ord(c) - 0x30 + 0xff10 for c in "0123456789"}
 
 OTHER_EXC = {"RecursionError": 1, "TypeError": 2, "ValueError": 3, "KeyError": 4, "AttributeError": 5,
              "IndexError": 6, "OverflowError": 7}
@@ -554,7 +569,13 @@ def field_value_texts(raw: str, name: str) -> list:
     for m in real_re.finditer(r'["\']?\b' + real_re.escape(name) + r'["\']?\s*:\s*', raw):
         mm = real_re.match(r"""("[^"]*"|'[^']*'|[^,}\]\s]+)""", raw[m.end():m.end() + 60])
         if mm:
-            out.append(mm.group(1).strip("\"'").strip().lower())
+            tok = mm.group(1)
+            out.append(tok.strip("\"'").strip().lower())
+            if tok.startswith('"') and "\\" in tok:      # a JSON string written with escapes says what it decodes to
+                try:
+                    out.append(str(real_json.loads(tok)).strip().lower())
+                except Exception:
+                    pass
     return out
 
 
@@ -594,6 +615,59 @@ def unsupported_leaves(structure, S, raw: str) -> list:
                     continue
             if not leaf_supported(v, raw_l, nums):
                 bad.append((path + name, v))
+
+    walk(structure.model_dump(), S, "")
+    return bad
+
+
+ESC_RUN = real_re.compile(r'(?:\\u[0-9a-fA-F]{4})+|\\[nrtbf/"\\]')
+NUMBER_TEXT = real_re.compile(r'\s*[-+]?(?:\d+\.?\d*|\.\d+)(?:[eE][-+]?\d+)?\s*|-?inf|nan')
+
+
+def chars_available(raw: str) -> set:
+    """every character the raw text writes: literally, or through a JSON escape sequence"""
+    av = set(raw)
+    av.update(' "{}[]:,')       # JSON's own syntax: a repair re-delimits (quotes keys and values, closes brackets)
+    for m in ESC_RUN.finditer(raw):
+        try:
+            av.update(real_json.loads('"' + m.group(0) + '"'))
+        except Exception:
+            pass
+    return av
+
+
+def made_up_characters(structure, S, raw: str) -> list:
+    """'obtained from JSON actually present in (or repaired from) the raw text', character by character: punctuation,
+    symbols and invisible characters of a string value must be characters the raw text writes (a repair re-delimits
+    strings and rewrites bare literals; it has no business with what stands inside a value).  Letters and digits are
+    judged by `unsupported_leaves`; a number printed as text brings its own sign / point."""
+    av = chars_available(raw)
+    bad = []
+
+    def leaf(v, path):
+        if isinstance(v, str):
+            if NUMBER_TEXT.fullmatch(v):
+                return
+            extra = sorted({c for c in v if not c.isalnum() and c not in av})
+            if extra:
+                bad.append((path, v[:40], [f"U+{ord(c):04X}" for c in extra[:4]]))
+        elif isinstance(v, (list, tuple)):
+            for e in v:
+                leaf(e, path)
+        elif isinstance(v, dict):
+            for k, e in v.items():
+                leaf(e, f"{path}.{k}")
+
+    def walk(dump, model, path):
+        for name, f in model.model_fields.items():
+            v = dump.get(name)
+            if not f.is_required() and v == f.default:
+                continue
+            ann = f.annotation
+            if isinstance(ann, type) and hasattr(ann, "model_fields") and isinstance(v, dict):
+                walk(v, ann, path + name + ".")
+            else:
+                leaf(v, path + name)
 
     walk(structure.model_dump(), S, "")
     return bad
@@ -657,6 +731,9 @@ class C11(Prop):
         self.repair_names = {n: f"r{i}" for i, (_, _, n) in enumerate(ALL_REPAIRS)}
         from operon_ai.core import types as core_types
         self.core_types = core_types
+        import operon_ai.core.agent as agent_mod
+        import operon_ai.state.metabolism as atp_mod
+        self.agent_mod, self.atp_mod = agent_mod, atp_mod
 
     @staticmethod
     def ids_of(tok):
@@ -728,6 +805,7 @@ class C11(Prop):
         mf_own = []              # per instance: name of the on_misfold callback or None
         hooklog = []             # user callbacks invoked during the current fold
         h_done = set()
+        wrappers = []            # the library's own wrapper objects that were handed an instance stay alive
 
         def make_co(name):
             def co(text, _name=name):
@@ -877,6 +955,29 @@ class C11(Prop):
                     if t[2] != "-":
                         co_own[-1][spec] = t[2]
                     mf_own[-1] = t[3] if t[3] != "-" else None
+                    emit(line, "ok")
+                except Exception as e:
+                    emit(line, f"raise:{type(e).__name__}")
+            elif t[0] == "loop" and len(t) == 1:
+                # the library's healing wrapper is handed the addressed instance for the current schema class; nothing is
+                # healed - the caller goes on using the validator directly
+                c = current()
+                try:
+                    wrappers.append(self.loop_mod.ChaperoneLoop(generator=lambda prompt, error_context=None: "",
+                                                                chaperone=c, schema=S, silent=True))
+                    emit(line, "ok")
+                except Exception as e:
+                    emit(line, f"raise:{type(e).__name__}")
+            elif t[0] == "agent" and len(t) == 1:
+                # a Chaperone the library's own code constructed (BioAgent's organelle), used directly by the caller
+                try:
+                    ag = self.agent_mod.BioAgent("a", "Worker", self.atp_mod.ATP_Store(budget=10, silent=True))
+                    wrappers.append(ag)
+                    ch = ag.chaperone
+                    chs.append(ch)
+                    owns.append(list("selr"))
+                    ctor = "selr"
+                    register(len(chs) - 1)
                     emit(line, "ok")
                 except Exception as e:
                     emit(line, f"raise:{type(e).__name__}")
@@ -1110,8 +1211,9 @@ class C11(Prop):
                 calls = "calls=[" + ",".join(str(i) for i in REC.calls) + "]"
                 if REC.nondet:
                     calls += " nondeterministic-library"
+                cp_ = owns_copy.get(chs.index(ch))
                 info = {"op": "heal", "S": S, "result": r, "error": err, "outs": outs, "generator_calls": n_calls[0],
-                        "max_retries": int(t[1]), "ctor": ctor}
+                        "max_retries": int(t[1]), "ctor": ctor, "ambiguous": cp_ is not None and "".join(cp_) != ctor}
                 if err is not None:
                     emit(line, f"raise:{type(err).__name__} {calls}", info)
                     continue
@@ -1237,6 +1339,12 @@ class C11(Prop):
                 if bad:
                     out.append(Violation("valid_structure_obtained_from_raw_text", "every value is present in the raw text",
                                          f"made-up values {bad!r}"[:300], idx))
+                elif len(raw) <= 20000:
+                    badc = made_up_characters(r.structure, S, raw)
+                    if badc:
+                        out.append(Violation("valid_structure_obtained_from_raw_text",
+                                             "every character of a string value is written in the raw text",
+                                             f"characters the text does not contain {badc!r}"[:300], idx))
                 if used in ("s", "e") and len(raw) <= 6000:
                     cands = json_values_present(raw)
                     hit = False
@@ -1334,12 +1442,36 @@ class C11(Prop):
                         out.append(Violation("valid_structure_obtained_from_raw_text", "the text is one the generator produced",
                                              repr(raw)[:100], idx))
                     else:
-                        bad = unsupported_leaves(f.structure, S, raw)
+                        text = x.get("texts", {}).get(raw, raw)      # what the caller's own co-chaperone makes of it
+                        bad = unsupported_leaves(f.structure, S, text) or made_up_characters(f.structure, S, text)
                         if bad:
                             out.append(Violation("valid_structure_obtained_from_raw_text",
                                                  "every value is present in the raw text", f"made-up values {bad!r}"[:300], idx))
+                        # "Raw text that is already schema-valid JSON is accepted by the strict strategy with full
+                        #  confidence and exactly the values json parsing gives" - the loop hands the validator's report on
+                        try:
+                            clean = plain_validate(S, real_json.loads(text))
+                        except Exception:
+                            clean = None
+                        if clean is not None and x["ctor"][:1] == "s" and not x.get("ambiguous"):
+                            if not same_structure(clean, f.structure):
+                                out.append(Violation("clean_json_taken_verbatim", repr(clean)[:200], repr(f.structure)[:200], idx))
+                            if f.strategy_used != FS.STRICT:
+                                out.append(Violation("clean_json_accepted_by_strict", "strict", str(f.strategy_used), idx))
             elif f.structure is not None:
                 out.append(Violation("invalid_has_no_structure_and_a_trace", "structure None", repr(f.structure)[:100], idx))
+        # a generated text that is schema-valid JSON is not a misfold (strict is among the instance's strategies)
+        if "s" in x["ctor"] and not x.get("ambiguous"):
+            for a in r.attempts:
+                if not a.success and isinstance(a.raw_output, str):
+                    text = x.get("texts", {}).get(a.raw_output, a.raw_output)
+                    try:
+                        plain_validate(S, real_json.loads(text))
+                    except Exception:
+                        continue
+                    out.append(Violation("clean_json_accepted", "valid (strict is among the strategies)",
+                                         f"attempt {a.attempt_number} recorded as a misfold", idx))
+                    break
         if r.final_confidence == 1.0 and not (f is not None and f.valid and f.strategy_used == FS.STRICT):
             out.append(Violation("confidence_one_only_for_strict", "< 1.0", f"final_confidence {r.final_confidence}", idx))
         return out
@@ -1371,21 +1503,22 @@ class C11(Prop):
     def spec_of(fields) -> str:
         return ",".join(f"{n}:" + (k if isinstance(k, str) else "n{" + C11.spec_of(k[1]) + "}") for n, k in fields)
 
-    def rand_val(self, rng, kind):
+    def rand_val(self, rng, kind, strs=None):
+        strs = strs or self.STRS
         if isinstance(kind, tuple):
-            return {n: self.rand_val(rng, k) for n, k in kind[1]}
+            return {n: self.rand_val(rng, k, strs) for n, k in kind[1]}
         if kind in ("int", "id"):
             return rng.choice([0, 1, -5, 7, 42, 100, rng.randint(-50, 1000)])
         if kind == "float":
             return rng.choice([0.5, 1.25, -3.0, 100.0, 0.0, 2.75])
         if kind in ("str", "sd"):
-            return rng.choice(self.STRS)
+            return rng.choice(strs)
         if kind == "bool":
             return rng.random() < 0.5
         if kind == "li":
             return [rng.randint(0, 9) for _ in range(rng.randint(0, 3))]
         if kind == "ls":
-            return [rng.choice(self.STRS) for _ in range(rng.randint(0, 3))]
+            return [rng.choice(strs) for _ in range(rng.randint(0, 3))]
         if kind == "la":
             v = [rng.randint(0, 9) for _ in range(rng.randint(0, 2))]
             for _ in range(rng.choice([0, 0, 0, 0, 0, 1, 1, 2, 3, rng.choice([150, 250, 300])])):   # bare `list`: any depth validates
@@ -1394,10 +1527,10 @@ class C11(Prop):
         if kind in ("oi", "oid"):
             return None if rng.random() < 0.3 else rng.randint(0, 99)
         if kind in ("os", "osd"):
-            return None if rng.random() < 0.3 else rng.choice(self.STRS)
+            return None if rng.random() < 0.3 else rng.choice(strs)
         return 0
 
-    def type_swap(self, rng, inst, fields):
+    def type_swap(self, rng, inst, fields, typo=False):
         """type swaps on the instance before serialising"""
         inst = dict(inst)
         for n, k in fields:
@@ -1406,9 +1539,13 @@ class C11(Prop):
             v = inst[n]
             if isinstance(k, tuple):
                 if isinstance(v, dict) and rng.random() < 0.5:
-                    inst[n] = self.type_swap(rng, v, k[1])
+                    inst[n] = self.type_swap(rng, v, k[1], typo)
             elif isinstance(v, bool):
                 inst[n] = rng.choice(["true", "yes", "1", "no", "False", "0", "maybe", 1, 0])
+            elif isinstance(v, int) and typo:
+                # digits that are not ASCII, blanks that are not ASCII: int() reads them
+                inst[n] = rng.choice([str(v).translate(FULLWIDTH), f"\u00a0{v}\u2003", f"{v}\u200b", f"\ufeff{v}",
+                                      str(v).replace("-", "\u2212")])
             elif isinstance(v, int):
                 inst[n] = rng.choice([str(v), float(v), f" {v} ", str(v) + "x", [v]])
             elif isinstance(v, float):
@@ -1465,20 +1602,25 @@ class C11(Prop):
             return "".join(rng.choice("selr") for _ in range(rng.randint(1, 6)))   # with duplicates
         return rng.choice(self.ALL_STRATS[2:])
 
-    def rand_raw(self, rng, fields):
+    def rand_raw(self, rng, fields, typo=False):
         x = rng.random()
+        strs = (TYPO_STRS if rng.random() < 0.8 else self.STRS) if typo else None
         if x < 0.03:
             return rng.choice(["", " ", "null", "42", '""', "[]", "[1, 2]", "{}", "true", "not json at all", "```json\n\n```",
                                "```json\nnull\n```", '```\n""\n```', "{", "}", "[{}]", "NaN", "<json></json>"])
-        inst = {n: self.rand_val(rng, k) for n, k in fields}
+        inst = {n: self.rand_val(rng, k, strs) for n, k in fields}
         if rng.random() < 0.08 and inst:
             inst.pop(rng.choice(list(inst)))             # a missing field
         if rng.random() < 0.06:
             inst["extra"] = rng.choice([1, "x", None])
         if rng.random() < 0.25:
-            inst = self.type_swap(rng, inst, fields)
+            inst = self.type_swap(rng, inst, fields, typo)
         style = rng.random()
-        if style < 0.7:
+        if typo and style < 0.75:
+            s = real_json.dumps(inst, ensure_ascii=False)     # the characters themselves, not their escapes
+            if rng.random() < 0.5:
+                return s                                       # schema-valid JSON as it stands
+        elif style < 0.7:
             s = real_json.dumps(inst)
         elif style < 0.85:
             s = real_json.dumps(inst, separators=(",", ":"))
@@ -1494,6 +1636,8 @@ class C11(Prop):
         for k in range(n):
             fields = self.rand_fields(rng, big=rng.random() < 0.04)
             hooked = rng.random() < 0.3      # user callbacks: co-chaperones for the schema, on_misfold
+            typo = rng.random() < 0.25       # string values with typographic punctuation / invisible characters
+            wrapped = rng.random() < 0.3     # the instance is (also) handed to the library's own wrappers
             ctor_strats = self.rand_strats(rng) if rng.random() < 0.25 else "none"
             lines = ["schema " + self.spec_of(fields),
                      (f"newh {ctor_strats} {self.rand_co(rng)} {self.rand_mf(rng)}" if hooked and rng.random() < 0.5
@@ -1509,7 +1653,8 @@ class C11(Prop):
                 if crowd:
                     y = rng.random()
                     if y < 0.3 and n_inst < 4:
-                        lines.append("new " + (self.rand_strats(rng) if rng.random() < 0.25 else rng.choice(["none", "none", "-"])))
+                        lines.append("agent" if rng.random() < 0.15 else
+                                     "new " + (self.rand_strats(rng) if rng.random() < 0.25 else rng.choice(["none", "none", "-"])))
                         n_inst += 1
                     elif y < 0.55:
                         lines.append(f"use {rng.randrange(n_inst)}")
@@ -1552,10 +1697,14 @@ class C11(Prop):
                     elif n_inst < 4:
                         lines.append(f"newh {rng.choice(['none', 'none', '-', 'er'])} {self.rand_co(rng)} {self.rand_mf(rng)}")
                         n_inst += 1
+                if wrapped and rng.random() < 0.6:
+                    # before the caller folds directly, the library's healing wrapper gets the instance: constructed only,
+                    # or constructed and run
+                    lines.append("loop" if rng.random() < 0.6 else self.rand_heal(rng, fields, typo))
                 if prev is not None and rng.random() < 0.15:
                     raw = prev
                 else:
-                    raw = self.rand_raw(rng, fields)
+                    raw = self.rand_raw(rng, fields, typo)
                 prev = raw
                 st = self.rand_strats(rng)
                 ops = rng.choice([["fold", "foldx"], ["foldx", "fold"], ["fold", "foldx"], ["foldx"], ["fold"]])
@@ -1574,7 +1723,7 @@ class C11(Prop):
                     for op in rng.choice([["fold", "foldx"], ["foldx"], ["fold"]]):
                         lines.append(f"{op} {hexs(raw)} {st}")
                 elif x < 0.5:
-                    lines.append(self.rand_heal(rng, fields))
+                    lines.append(self.rand_heal(rng, fields, typo))
                 elif x < 0.62 and "fold" in ops:
                     for _ in range(rng.choice([1, 1, 2, 3])):
                         lines.append("map " + rng.choice(["id", "copy", "tag", "rv", "rk", "r0", "rt", "rv"]))
@@ -1592,10 +1741,10 @@ class C11(Prop):
 
     DECAYS = ["1/10", "1/10", "0", "1/4", "1/2", "1", "2", "1/20", "3/10", "1/8"]
 
-    def rand_heal(self, rng, fields):
+    def rand_heal(self, rng, fields, typo=False):
         """a healing run: k texts that (mostly) misfold, then one that (mostly) folds"""
-        inst = {n: self.rand_val(rng, k) for n, k in fields}
-        good = real_json.dumps(inst)
+        inst = {n: self.rand_val(rng, k, TYPO_STRS if typo else None) for n, k in fields}
+        good = real_json.dumps(inst, ensure_ascii=not typo)
         if rng.random() < 0.4:
             good = self.corrupt(rng, good)
         k = rng.choice([0, 0, 1, 1, 2, 3, 4, 6, 11, 12])
@@ -1748,7 +1897,27 @@ class C11(Prop):
                 L += ["stats", "use 0", "stats"]
                 alias_cases.append({"lines": L, "note": "two Chaperones built from ONE caller list, a third from an equal but distinct list; "
                                                         "in-place edits through the caller's reference and through instance.strategies"})
-        return [{"name": "the constructor keeps a non-empty caller list: shared list objects x in-place edits", "cases": alias_cases},
+        wrap_cases = []
+        wspec = "s:str,a:oid"
+        ascii_doc = '{"s": "plain", "a": 1}'
+        docs = []
+        for c in ["\u2019", "\u201c", "\u00a0", "\u200b", "\ufeff", "\u2026", "\uff11", "e\u0301"] + \
+                 (["\u2018", "\u201d", "\u2013", "\u00ad", "\u2028", "\u3000", "\ufb01"] if tier != "quick" else []):
+            d = real_json.dumps({"s": f"x{c}y {c}", "a": 2}, ensure_ascii=False)
+            docs += [d, "Here you go: " + d + " thanks", d.replace('"', "'")]
+        docs.append(real_json.dumps({"s": "O\u2019Brien \u201cq\u201d", "a": 3}))        # written with escapes
+        for wrap in [[], ["loop"], [f"heal 1 1/10 {hexs(ascii_doc)}"], ["new none", "loop", "use 0"],
+                     ["schema s:str,a:osd", "loop", f"schema {wspec}"], ["agent"], ["agent", "loop"],
+                     ["loop", f"heal 2 1/4 {hexs('nope')},{hexs(docs[0])}"]]:
+            for st in ["none", "re"]:
+                L = [f"schema {wspec}", "new none"] + wrap
+                for d in docs:
+                    L += [f"fold {hexs(d)} {st}", f"foldx {hexs(d)} {st}"]
+                L += ["stats"]
+                wrap_cases.append({"lines": L, "note": "an instance handed to the library's own wrappers (ChaperoneLoop constructed / run, "
+                                                       "BioAgent's organelle), then used directly on typographic / invisible characters"})
+        return [{"name": "instances the library's own wrappers were handed x typographic documents", "cases": wrap_cases},
+                {"name": "the constructor keeps a non-empty caller list: shared list objects x in-place edits", "cases": alias_cases},
                 {"name": "user callbacks: co-chaperone x on_misfold x strategies; per instance and per schema class", "cases": hook_cases},
                 {"name": "FoldedProtein.map: function behaviours x valid/invalid reports", "cases": map_cases},
                 {"name": "re-assigned extraction / repair tables (instance and subclass) x strategies", "cases": table_cases},
